@@ -232,9 +232,10 @@ Fixpoint c_pack (count : nat) (val : Z) : list Z :=
 Definition c_unpack (buf : list Z) : Z :=
   fold_left (fun val x => Z.lor (Z.shiftl val 64) x) (rev buf) 0.
 
-(* ---- register double buffering: regtmp = rin (all its limbs); rout[n] = regtmp[n] *)
-Definition c_regcopy (rin : list Z) (wrout : Z) : list Z :=
-  map (fun n => rd rin n) (idxs wrout).
+(* ---- register double buffering: regtmp = rin (all its limbs);
+        rout[n] = regtmp[n]{mask}  with mask = _makemask(rout, rin.bitwidth, n) *)
+Definition c_regcopy (wrin : Z) (rin : list Z) (wrout : Z) : list Z :=
+  map (fun n => makemask wrout (Some wrin) n (rd rin n)) (idxs wrout).
 
 (* representation invariant of a wire of width w *)
 Definition limbs_ok (w : Z) (l : list Z) : Prop :=
